@@ -442,7 +442,100 @@ def c24_driver(chk, pid, tier, seed, spec, t0):
     return chk.finish(pid, tier, seed, spec, t0, m, notes)
 
 
-CUSTOM = {"C14": c14_driver, "C24": c24_driver}
+PROPS["C26"] = P("exploration",
+    "random valid schemas over the built-in scalars with hostile naming (Rust keywords incl. reserved ones, Type/Type_, Self_/Box/Vec/Option, "
+    "names differing only in case or underscores, applied to types, properties, edges, entrypoints and parameters); generate_rust_stub runs "
+    "in-process under catch_unwind; the documented refusal ('cannot generate adapter for a schema containing both ...', pinned by the "
+    "repository's should_panic tests) is counted, not reported; every generated stub becomes a module of one crate that depends on /repo/trustfall "
+    "and `cargo test --no-run --offline` (i.e. rustc, including the stub's tests) is the oracle; compile errors are attributed to modules by path "
+    "and the remaining modules are re-compiled. distinct_nontrivial = distinct name sets of generated stubs",
+    quick={"cases": 8, "timeout": 900},
+    thorough={"cases": 120, "timeout": 2400},
+    floors={"evaluations": 8, "distinct": 6},
+    technique="runtime monitoring of the generator with rustc as the oracle over its output",
+    level_note="the oracle observing the generator's execution is rustc; compile time bounds the number of schemas")
+
+
+def c26_driver(chk, pid, tier, seed, spec, t0):
+    import os, subprocess, json, re, shutil
+    binary = chk.build()
+    if binary is None:
+        print(f"INCONCLUSIVE property={pid} reason=harness build failed")
+        return 2
+    t = spec[tier]
+    m = {"evaluations": 0, "nontrivial": set(), "counters": {}, "sets": {}, "samples": [], "violations": [], "inconclusive": [], "crashed": [], "binary": None}
+    stubs = os.path.join(chk.WORK, "stubs")
+    rep = os.path.join(chk.WORK, "out", "C26.json")
+    os.makedirs(os.path.dirname(rep), exist_ok=True)
+    os.makedirs(os.path.join(chk.REPLAYS, pid), exist_ok=True)
+    p = subprocess.run([binary, "C26-gen", "--seed", str(seed), "--cases", str(t["cases"]), "--outdir", stubs, "--out", rep],
+                       cwd=chk.VERIF, env=chk.ENV, text=True, stdout=subprocess.PIPE, stderr=subprocess.PIPE, timeout=600)
+    if p.returncode != 0 or not os.path.exists(rep):
+        m["inconclusive"].append("stub generation step failed: " + p.stderr[-300:])
+        return chk.finish(pid, tier, seed, spec, t0, m, {})
+    r = json.load(open(rep))
+    m["evaluations"] = r["evaluations"]
+    m["nontrivial"] = set(r["nontrivial"])
+    m["counters"] = r["counters"]
+    listing = json.load(open(os.path.join(stubs, "listing.json")))
+    for x in listing:
+        if x["outcome"] == "panic":
+            path = os.path.join(chk.REPLAYS, pid, f"stubgen-panic-{x['module']}.graphql")
+            open(path, "w").write("# " + x["message"].replace("\n", " ") + "\n" + x.get("sdl", ""))
+            msg = re.sub(r"`[^`]*`|\"[^\"]*\"|\d+", "_", x["message"])[:90]
+            m["violations"].append({"signature": "C26:stubgen-panicked:" + msg, "what": x["message"][:300], "replay": path})
+        elif x["outcome"] == "error":
+            path = os.path.join(chk.REPLAYS, pid, f"stubgen-error-{x['module']}.txt")
+            open(path, "w").write(x["message"])
+            m["violations"].append({"signature": "C26:stubgen-error:" + re.sub(r"\d+", "_", x["message"])[:80], "what": x["message"][:300], "replay": path})
+    open(os.path.join(stubs, "Cargo.toml"), "w").write(
+        "[package]\nname = \"stubs_under_test\"\npublish = false\nversion = \"0.1.0\"\nedition = \"2021\"\n\n"
+        "[dependencies]\ntrustfall = { path = '/repo/trustfall' }\n\n[workspace]\n")
+    shutil.copy("/repo/Cargo.lock", os.path.join(stubs, "Cargo.lock"))
+    env = dict(chk.ENV, CARGO_TARGET_DIR=os.path.join(chk.WORK, "target-stubs"))
+    mods = [x["module"] for x in listing if x["outcome"] == "generated"]
+    compiled_ok = 0
+    notes = {"stubs_generated": len(mods), "rustc_rounds": 0}
+    for rnd in range(8):
+        if not mods:
+            break
+        open(os.path.join(stubs, "src", "lib.rs"), "w").write(
+            "".join(f"#[allow(dead_code, unused_imports, unused_variables, non_snake_case)]\nmod {x};\n" for x in mods))
+        notes["rustc_rounds"] += 1
+        try:
+            p = subprocess.run(["cargo", "test", "--no-run", "--offline"], cwd=stubs, env=env, text=True,
+                               stdout=subprocess.PIPE, stderr=subprocess.PIPE, timeout=t["timeout"])
+        except subprocess.TimeoutExpired:
+            m["inconclusive"].append("rustc watchdog")
+            break
+        if p.returncode == 0:
+            compiled_ok = len(mods)
+            break
+        bad = sorted(set(re.findall(r"--> src/(s\d+)/", p.stderr)))
+        if not bad:
+            chk.log(p.stderr[-3000:])
+            m["inconclusive"].append("cargo failed without an error attributable to a stub: " + p.stderr[-200:])
+            break
+        # one violation per failing module; signature = first error line of that module, names stripped
+        blocks = re.split(r"\n(?=error)", p.stderr)
+        for b in bad:
+            mine = [x for x in blocks if f"--> src/{b}/" in x and x.startswith("error")]
+            first = mine[0].splitlines()[0] if mine else "error"
+            sig = "C26:stub-does-not-compile:" + re.sub(r"`[^`]*`", "`_`", first)[:100]
+            path = os.path.join(chk.REPLAYS, pid, f"compile-error-{b}.txt")
+            sdl = open(os.path.join(stubs, "src", b, "schema_under_test.graphql")).read()
+            open(path, "w").write("\n".join(mine[:5]) + "\n\n# schema\n" + sdl)
+            m["violations"].append({"signature": sig, "what": first, "replay": path})
+        mods = [x for x in mods if x not in bad]
+    notes["stubs_compiled"] = compiled_ok
+    m["counters"]["stubs_compiled_by_rustc"] = compiled_ok
+    if compiled_ok < 2 and not m["violations"]:
+        m["inconclusive"].append(f"only {compiled_ok} stubs were compiled")
+    m["samples"] = [{"stubs": len(listing), "example": listing[0] if listing else None, "verdict": f"{compiled_ok} stubs compiled with their tests"}]
+    return chk.finish(pid, tier, seed, spec, t0, m, notes)
+
+
+CUSTOM = {"C14": c14_driver, "C24": c24_driver, "C26": c26_driver}
 
 # reasons for properties that are not claimed (kept current; empty when everything is claimed)
 NOT_CLAIMED = {}
